@@ -51,9 +51,7 @@ def sliceIdx (n : Nat) (start stop : Option Int) (step : Nat) : List Nat :=
 
 def normAx (n : Nat) : Ax → Except Err NAx
   | .int i => match normInt n i with | some j => .ok (.one j) | none => .error .index
-  | .list l =>
-      if l.isEmpty then .error .index                                   -- `np.asarray([])` is a float array: not an index
-      else match l.mapM (normInt n) with | some js => .ok (.many js) | none => .error .index
+  | .list l => match l.mapM (normInt n) with | some js => .ok (.many js) | none => .error .index      -- (an empty list selects nothing: a dimension of length 0)
   | .slice a b st => if st = 0 then .error .other else .ok (.range (sliceIdx n a b st))
 
 def normAll : List Nat → List Ax → Except Err (List NAx)
